@@ -182,3 +182,13 @@ Proof.
   intros n Hn. apply gap_ok_sound. pose proof gap_upto_2300 as F. rewrite forallb_forall in F.
   apply F. apply in_seq. lia.
 Qed.
+
+Lemma is_prime_odd : forall p, is_prime p = true -> 3 <= p -> p = 2 * (p / 2) + 1.
+Proof.
+  intros p Hp H3. destruct (is_prime_no_divisor p Hp) as [_ Hd].
+  pose proof (Nat.div_mod p 2 ltac:(lia)) as E. pose proof (Nat.mod_upper_bound p 2 ltac:(lia)) as U.
+  destruct (Nat.eq_dec (p mod 2) 0) as [Z|Z]; [|lia].
+  destruct (le_lt_dec 4 p) as [L|L].
+  - exfalso. apply (Hd 2); auto; lia.
+  - assert (p = 3) by lia. subst. discriminate.
+Qed.
